@@ -288,3 +288,15 @@ def split_op(*a, **k): pass
 
 
 Raiser = Shape('raiser')
+
+
+def step_ensures(*a, **k): pass
+def step_raises(*a, **k): pass
+
+
+def ite(c, a, b):
+    return a if c else b
+
+
+def typeis(v, c):
+    return type(v) is c
